@@ -42,7 +42,8 @@ def _h(*pairs):
         d[virt] = real
     return d
 
-COMPILER_HARNESS = _h(("internal/ast/compiler/zz_verif_c05.go", "harness/compiler/zz_verif_c05.go"))
+COMPILER_HARNESS = _h(("internal/ast/compiler/zz_verif_c05.go", "harness/compiler/zz_verif_c05.go"),
+                      ("internal/ast/compiler/zz_verif_c07.go", "harness/compiler/zz_verif_c07.go"))
 
 PROPERTIES["C05"] = {
     "level_text": "Bounded symbolic execution + SMT of the real passes (via compiler.Passes.Process, i.e. after the deep copy, as users run them) on "
@@ -103,4 +104,43 @@ PROPERTIES["C06"] = {
                  ["VerifC06Go", "VerifC06Java", "VerifC06PHP", "VerifC06Python", "VerifC06TypeScript",
                   "VerifC06GoSpine", "VerifC06JavaSpine", "VerifC06PHPSpine", "VerifC06PythonSpine"],
                  "internal/zzverif/hchains", test_pkg_name="hchains", needs_leaf=True)],
+}
+
+
+HAST_HARNESS = _h(("internal/zzverif/hast/zz_verif_c18.go", "harness/hast/zz_verif_c18.go"),
+                  ("internal/zzverif/hast/zz_verif_c07_merge.go", "harness/hast/zz_verif_c07_merge.go"))
+
+PROPERTIES["C07"] = {
+    "level_text": "Bounded symbolic execution + SMT. (1) Non-mutation: every heap object reachable from the symbolic input schemas is frozen, then each language's real pass chain and "
+                  "each user transformation (symbolic parameters) is run through compiler.Passes.Process; any store into a frozen object on any path is the violation (stronger than a "
+                  "snapshot comparison). (2) Merge: ast.Schemas.Consolidate on 2-3 symbolic schemas is union-or-error (no definition dropped, altered, invented or duplicated; "
+                  "conflicts always error). (3) Consolidate is independent of the order of inputs of different packages.",
+    "level_note": "Bounds: schemas as in C05/C06 (T(1) main object), merge inputs of <=2 objects over {Foo,Bar} in packages {p,q}. File-level statements of the property "
+                  "(generated files identical alone vs. together, unreferenced extra input) are outside the claim: file contents come from text/template jennies. "
+                  "Map iteration order is fixed (order dependence is C03's subject).",
+    "bounds": {"frozen": "T(1) main object + 2 struct objects, 5 language chains, 19 user transformations", "merge": "2 (quick) / 3 (thorough) schemas, <=2 objects each"},
+    "runs": [Run("chains", ["./internal/zzverif/hchains"], CHAINS_HARNESS,
+                 ["VerifC07FrozenGo", "VerifC07FrozenJava", "VerifC07FrozenPHP", "VerifC07FrozenPython", "VerifC07FrozenTypeScript"],
+                 "internal/zzverif/hchains", test_pkg_name="hchains", needs_leaf=True),
+             Run("compiler", ["./internal/ast/compiler"], COMPILER_HARNESS, ["VerifC07UserPasses"], "internal/ast/compiler", needs_leaf=True),
+             Run("merge", ["./internal/zzverif/hast"], HAST_HARNESS, ["VerifC07Merge", "VerifC07InputOrder"], "internal/zzverif/hast", test_pkg_name="hast")],
+}
+
+
+PROPERTIES["C04"] = {
+    "level_text": "Bounded symbolic execution + SMT. Every implicit run-time panic condition of Go (nil dereference, index/slice out of range, failed type assertion, "
+                  "nil-map write, negative make, division by zero) and every explicit panic on every explored path of the real code is a violation; recursion and step "
+                  "bounds detect divergence. Inputs: symbolic IR through every language chain, every user transformation with symbolic parameters, the ordered map, "
+                  "builder derivation and veneers (as they are added to the other checks).",
+    "level_note": "Bounds as in the reused harnesses (C05/C06/C07/C15/C16/C17/C19). Byte-level parsing (JSON/YAML/CUE libraries), the CUE front end and text/template "
+                  "execution are outside the claim: cog code only sees decoded structs, which is what is made symbolic.",
+    "bounds": {"inputs": "same symbolic inputs as C05, C06, C07, C19 harnesses, panics judged instead of assertions", "recursion": "150 frames", "steps": "2e6 per path"},
+    "runs": [Run("chains", ["./internal/zzverif/hchains"], CHAINS_HARNESS,
+                 ["VerifC06Go", "VerifC06Java", "VerifC06PHP", "VerifC06Python", "VerifC06TypeScript", "VerifC06GoSpine", "VerifC06JavaSpine", "VerifC06PHPSpine", "VerifC06PythonSpine"],
+                 "internal/zzverif/hchains", test_pkg_name="hchains", needs_leaf=True, panics="violation", judge="panic"),
+             Run("compiler", ["./internal/ast/compiler"], COMPILER_HARNESS,
+                 ["VerifC07UserPasses", "VerifC05Rename", "VerifC05Prefix", "VerifC05Duplicate", "VerifC05Unspec", "VerifC05ReplaceReference", "VerifC05AllowedObjects"],
+                 "internal/ast/compiler", needs_leaf=True, panics="violation", judge="panic"),
+             Run("orderedmap", ["./internal/orderedmap"], {"internal/orderedmap/zz_verif_c19.go": "harness/orderedmap/zz_verif_c19.go"},
+                 ["VerifC19Step", "VerifC19History"], "internal/orderedmap", panics="violation", judge="panic")],
 }
